@@ -159,10 +159,15 @@ Definition diff_loc (fx : bool) (T : Z) (dfs : list frame) (new : frame) : optio
   loc_loop (S (total_len dfs1)) fx mn dfs1 [].
 
 (* ---------- window_accumulator ---------- *)
-Inductive wkind := WN (n : nat) | WT (fx : bool) (T : Z).
+(* WE: expanding() = window_accumulator with diff_expanding (nothing ever decays) *)
+Inductive wkind := WN (n : nat) | WT (fx : bool) (T : Z) | WE.
 
 Definition diff (w : wkind) (dfs : list frame) (new : frame) : option (list frame * list frame) :=
-  match w with WN n => Some (diff_iloc n dfs new) | WT fx T => diff_loc fx T dfs new end.
+  match w with
+  | WN n => Some (diff_iloc n dfs new)
+  | WT fx T => diff_loc fx T dfs new
+  | WE => Some (if isnil new then dfs else dfs ++ [new], [])
+  end.
 
 Record wacc (A : agg) := mkWacc { w_pyint : bool; w_dfs : list frame; w_state : St A }.
 Arguments mkWacc {A}. Arguments w_pyint {A}. Arguments w_dfs {A}. Arguments w_state {A}.
@@ -293,7 +298,7 @@ Definition newest (rows : frame) : Z := fmax rows.
 Definition window_n (N : nat) (rows : frame) : frame := lastn N rows.
 Definition window_t (T : Z) (rows : frame) : frame := filter (fun r => (newest rows - T <? stamp r)%Z) rows.
 Definition window_of (w : wkind) (rows : frame) : frame :=
-  match w with WN n => window_n n rows | WT _ T => window_t T rows end.
+  match w with WN n => window_n n rows | WT _ T => window_t T rows | WE => rows end.
 
 Definition prefixes (batches : list frame) : list frame :=
   map (fun k => concat (firstn k batches)) (seq 1 (length batches)).
